@@ -92,7 +92,7 @@ def build(tier):
         if q and vi not in (0, 1, 2, 3, 4, 7, 9):
             continue
         name = f"server_{vi:02d}"
-        pre = [f"-1 <= g0 < {G} and -1 <= g1 < {G} and g2 == -1", "0 <= mode <= 2", "g0 >= 0 or g1 < 0", "g1 >= 0 or g2 < 0"] + (["g1 < 0", "mode == 0 or g0 < 1", "logged or g0 < 2"] if q else [])
+        pre = [f"-1 <= g0 < {G} and -1 <= g1 < {G} and g2 == -1", "0 <= mode <= 2", "g0 >= 0 or g1 < 0", "g1 >= 0 or g2 < 0"] + (["g1 < 0", "mode == 0 or g0 < 1", "logged or g0 < 2"] if q else ["g1 < 4", "logged or g1 < 0"])  # thorough: second byte from the first four (the full plane is 942 two-second sessions per verb)
         src += hgen.cond(name, "g0: int, g1: int, g2: int, mode: int, logged: bool", pre, f"L.server_garbage({vi}, g0, g1, g2, mode, logged)", sig="hb.KEY")
         conds += [Cond(name, "prop", T, group="server"), Cond(name + "__twin", "twin", 60, group="server")]
     src += "\nL.list_line_alpha(0, 1, 2, 3); L.list_line_mutation(0, 5, 1, 2, 1); L.list_line_bytes(255, 0, 0, 2); L.mlsx_line('a b'); L.mlsx_mutation(0, 3, 1, -1, 1); L.passive_answer(0, 0, 5, 1, -1, 1); L.passive_answer(1, 0, 5, 1, -1, 1)\nL.response_lines(2, 1, 0, 0, 0); L.list_dots(0, True, False); L.server_garbage(1, 0, 1, -1, 0, True); L.server_garbage(3, 0, -1, -1, 2, False)\n"
@@ -109,7 +109,7 @@ def build(tier):
             "PASV / EPSV / 257 answers": "mutations of valid answers at every position (regular expressions make symbolic text intractable: Mode A windows)",
             "parse_response": f"every sequence of <= {3 if q else 4} lines from {len(L.RESP_LINES)} line shapes (undecodable, empty, short, continuation, mismatching code ...) followed by end of stream",
             "listings": f"{len(L.LISTINGS)} hostile listings ('.' and '..', a directory nested in itself, an unparsable line, empty) x recursive x MLSD/LIST",
-            "server": f"control line = one of {len(L.VERBS)} verb prefixes + <= {1 if q else 2} bytes from {L.GARBAGE} (undecodable sequences, NUL, bare CR/LF ...), terminated, cut off by end of stream, or over-long (readline raises as StreamReader does); "
+            "server": f"control line = one of {len(L.VERBS)} verb prefixes + <= {1 if q else 2} bytes from {L.GARBAGE} (thorough: the second one from the first four) (undecodable sequences, NUL, bare CR/LF ...), terminated, cut off by end of stream, or over-long (readline raises as StreamReader does); "
                       "session logged in or not; a second session runs USER/PWD/MLST/QUIT concurrently",
         },
         outside=["longer garbage than the bounds", "a server that never sends end-of-file or a line terminator (that is C16's timeouts)", "hostile data on the data channel during RETR (payload is opaque)", "custom list parsers supplied by the application"],
